@@ -189,7 +189,9 @@ class Engine:
         self._model = None
 
   # ---- API used by values and harnesses ----------------------------------
-  def assume(self, cond):
+  def assume(self, cond, check=True):
+    """check=False: add without a feasibility query (the harness's vacuity
+    witness guards against an unsatisfiable assumption set)."""
     cond = cond.z if isinstance(cond, SymBool) else cond
     c = _simp(cond)
     if z3.is_true(c):
@@ -198,6 +200,9 @@ class Engine:
       raise _AbortPath()
     if self._forced is not None:
       self._pc.append(c)
+      return
+    if not check:
+      self._add(c)
       return
     r, _ = self._check(c)
     if r == 'unsat':
